@@ -234,6 +234,30 @@ func (s *Store) Bin(op Op, a, b *Term) *Term {
 		}
 	}
 	m := mask(w)
+	// strength reduction towards the forms the concat/extract rules know:
+	// x*2^k = x<<k, x/2^k = x>>k, x%2^k = x&(2^k-1); a+b = a|b when no bit can be set in both
+	if b.op == OpConst && b.val != 0 && b.val&(b.val-1) == 0 {
+		k := uint64(0)
+		for v := b.val; v > 1; v >>= 1 {
+			k++
+		}
+		switch op {
+		case OpMul:
+			return s.rw(s.Bin(OpShl, a, s.Const(w, k)), op, w, 0, 0, a, b)
+		case OpUdiv:
+			return s.rw(s.Bin(OpLshr, a, s.Const(w, k)), op, w, 0, 0, a, b)
+		case OpUrem:
+			return s.rw(s.Bin(OpAnd, a, s.Const(w, b.val-1)), op, w, 0, 0, a, b)
+		}
+	}
+	if op == OpMul && a.op == OpConst && a.val != 0 && a.val&(a.val-1) == 0 {
+		return s.rw(s.Bin(OpMul, b, a), op, w, 0, 0, a, b)
+	}
+	if op == OpAdd && a.op != OpConst && b.op != OpConst && w > 1 {
+		if maxBits(b) <= lowZeros(a) || maxBits(a) <= lowZeros(b) {
+			return s.rw(s.Bin(OpOr, a, b), op, w, 0, 0, a, b)
+		}
+	}
 	switch op {
 	case OpAdd:
 		if a.op == OpConst {
@@ -852,6 +876,59 @@ func (s *Store) muxSelect(arr, idx *Term) *Term {
 		return s.Ite(bit[pos], hi, lo)
 	}
 	return rec(k-1, 0)
+}
+
+// lowZeros: a lower bound on the number of low bits of t that are zero.
+func lowZeros(t *Term) int {
+	var rec func(t *Term, d int) int
+	rec = func(t *Term, d int) int {
+		if t.w <= 0 || d > 24 {
+			return 0
+		}
+		min := func(a, b int) int {
+			if a < b {
+				return a
+			}
+			return b
+		}
+		switch t.op {
+		case OpConst:
+			if t.val == 0 {
+				return t.w
+			}
+			n := 0
+			for v := t.val; v&1 == 0; v >>= 1 {
+				n++
+			}
+			return n
+		case OpShl:
+			if t.a[1].op == OpConst && t.a[1].val < 64 {
+				return min(t.w, rec(t.a[0], d+1)+int(t.a[1].val))
+			}
+		case OpZext:
+			if z := rec(t.a[0], d+1); z < t.a[0].w {
+				return z
+			}
+			return t.w
+		case OpAnd:
+			a, b := rec(t.a[0], d+1), rec(t.a[1], d+1)
+			if a > b {
+				return a
+			}
+			return b
+		case OpOr, OpXor, OpAdd:
+			return min(rec(t.a[0], d+1), rec(t.a[1], d+1))
+		case OpIte:
+			return min(rec(t.a[1], d+1), rec(t.a[2], d+1))
+		case OpConcat:
+			if z := rec(t.a[1], d+1); z < t.a[1].w {
+				return z
+			}
+			return t.a[1].w + rec(t.a[0], d+1)
+		}
+		return 0
+	}
+	return rec(t, 0)
 }
 
 // maxBits: an upper bound on the number of low bits of t that can be non-zero.
